@@ -42,3 +42,75 @@ Definition c12_guard_case (ids1 ids2 : list nat) (dists radii : list Q) (accepte
   code [ Bool.eqb (guard ids1 ids2 dists radii (1 # 2)) accepted;
          (* the property: refused when id sets differ or some centre pair is farther apart than the radius *)
          negb accepted || (nlist_eqb ids1 ids2 && forallb (fun dr => Qleb (fst dr) (snd dr)) (combine dists radii)) ].
+
+(* ---- which patch-definition option wins (catalog/catalog.py:PatchMode.determine) ---- *)
+Inductive pmode := Apply | Divide | Create.
+(* arguments: is patch_centers / patch_name / patch_num given *)
+Definition determine (centres name num : bool) : option pmode :=
+  if centres then Some Apply else if name then Some Divide else if num then Some Create else None.
+
+(* ---- index of the nearest centre (assign_patch_centers: scipy vq) on a row of distances
+        record -> centre 0, 1, ...; the first minimum ---- *)
+Fixpoint argmin (row : list Q) : nat :=
+  match row with
+  | [] => 0%nat
+  | d :: r => match r with
+              | [] => 0%nat
+              | _ => let k := argmin r in if Qleb d (nth k r 0) then 0%nat else S k
+              end
+  end.
+
+(* ---- split_into_patches / CatalogWriter.process_patches ---- *)
+Section Split.
+  Context {R : Type}.
+  (* a chunk of input: the records and, if the reader was given patch_name, the index column *)
+  Record chunk := { recs : list R; col : option (list nat) }.
+  (* patch index of every record.  near = Some f: patch centres are given, f = nearest centre.
+     Centres first ("statement order matters"): the column is dropped when centres are given. *)
+  Definition chunk_ids (near : option (R -> nat)) (ch : chunk) : option (list nat) :=
+    match near with
+    | Some f => Some (map f (recs ch))
+    | None => col ch
+    end.
+  (* the other statement order: a column, when present, wins over the centres *)
+  Definition chunk_ids_colfirst (near : option (R -> nat)) (ch : chunk) : option (list nat) :=
+    match col ch with
+    | Some ids => Some ids
+    | None => match near with Some f => Some (map f (recs ch)) | None => None end
+    end.
+  (* groupby: the records of the chunk that go to patch p *)
+  Definition select (p : nat) (rs : list R) (ids : list nat) : list R :=
+    map fst (filter (fun x => (snd x =? p)%nat) (combine rs ids)).
+  (* the data of patch p after all chunks (sub-chunks of workers are chunks too) were processed
+     in the given order; None = RuntimeError (no way to obtain patch ids) *)
+  Fixpoint patch_data_with (cids : chunk -> option (list nat)) (chunks : list chunk) (p : nat) : option (list R) :=
+    match chunks with
+    | [] => Some []
+    | ch :: rest =>
+        match cids ch, patch_data_with cids rest p with
+        | Some ids, Some tl => Some (select p (recs ch) ids ++ tl)
+        | _, _ => None
+        end
+    end.
+  Definition patch_data (near : option (R -> nat)) := patch_data_with (chunk_ids near).
+  Definition patch_data_colfirst (near : option (R -> nat)) := patch_data_with (chunk_ids_colfirst near).
+End Split.
+Arguments chunk R : clear implicits.
+
+(* the statement "the reported centres reproduce the partition" for one stored record: its row of
+   distances to the reported centres is minimal at the index p of the patch that stores it *)
+Definition own_centre_nearest (row : list Q) (p : nat) : bool :=
+  (p <? length row)%nat && forallb (Qleb (nth p row 0)) row.
+
+(* rows: per input record the distances to the reported centres; column: the input's patch index
+   column if patch_name was given; stored: the patch in which the implementation stored the record *)
+Definition c12_split_case (centres name num : bool) (rows : list (list Q)) (column : option (list nat))
+                          (stored : list nat) : nat :=
+  let ch := {| recs := rows; col := if name then column else None |} in
+  code [ match determine centres name num with                                       (* model = impl *)
+         | Some Apply => match chunk_ids (Some argmin) ch with Some ids => nlist_eqb ids stored | None => false end
+         | Some Divide => match chunk_ids None ch with Some ids => nlist_eqb ids stored | None => false end
+         | _ => true
+         end;
+         negb centres || forallb (fun rp => own_centre_nearest (fst rp) (snd rp)) (combine rows stored);
+         (length stored =? length rows)%nat ].
